@@ -49,7 +49,8 @@ CLAIMS = {
             'build_function_prelude (regenerated): r1 = metadata pointer if that buffer is non-empty else the packet pointer, r10 = end of the 512-byte slot = upper bound of the '
             'bounds-check stack region, nothing else but r2. C09_jit_prologue_*: the prologue emitted for each of the three VM-kind variants (regenerated; stack machine '
             'X86Stk.v): rdi = packet or metadata pointer, r10 = packet pointer, rbp = rsp after the five saves with rsp 520 bytes lower, and for the fixed kind the words at '
-            'metadata + offsets hold packet start and end. C09_r1_every_kind_every_engine / C09_fixed_metadata_words / C09_fixed_jit_words: the arguments each VM kind\'s '
+            'metadata + offsets hold packet start and end; C09_jit_entry_no_metadata / C09_jit_entry_metadata: the state the prologue leaves is an entry state of the JIT run theorems '
+            '(every register a 64-bit value, R10 = packet address, rdi = the interpreter\'s r1, rbp = top of the 512-byte stack). C09_r1_every_kind_every_engine / C09_fixed_metadata_words / C09_fixed_jit_words: the arguments each VM kind\'s '
             'execute_program / _jit / _cranelift hands to its engine and the stores into the fixed metadata buffer, regenerated from lib.rs, give r1 = metadata buffer '
             '(metadata VMs), packet or 0 (raw VM), 0 (no-data VM) under all three engines, and packet start / end at the two offsets on every execution. All 4 VM kinds x 3 engines are '
             'probed against values derived from the buffer layout, incl. the two words of the fixed metadata buffer for 8 offset pairs, 6 packet lengths '
